@@ -45,7 +45,23 @@ Definition ecode_table : list (string * Z) := [
   ("thrift.errReadI64", 13); ("thrift.errReadDouble", 14); ("thrift.errDepthLimitExceeded", 15);
   ("thrift.errBufferTooShort", 16); ("thrift.errNegativeSize", 17);
   ("io.EOF", 1);
-  ("ttheader.checkProtocolID#fmt.Errorf", 6)
+  ("ttheader.checkProtocolID#fmt.Errorf", 6);
+  ("ttheader.readIntKVInfo#fmt.Errorf#1", 8); ("ttheader.readIntKVInfo#fmt.Errorf#2", 8);
+  ("ttheader.readIntKVInfo#fmt.Errorf#3", 8);
+  ("ttheader.readStrKVInfo#fmt.Errorf#1", 8); ("ttheader.readStrKVInfo#fmt.Errorf#2", 8);
+  ("ttheader.readStrKVInfo#fmt.Errorf#3", 8);
+  ("ttheader.readACLToken#fmt.Errorf", 8); ("ttheader.readKVInfo#fmt.Errorf", 9);
+  ("ttheader.Decode#errors.New", 3); ("ttheader.Decode#fmt.Errorf#1", 4);
+  ("ttheader.Decode#fmt.Errorf#2", 7); ("ttheader.Decode#fmt.Errorf#3", 8);
+  ("thrift.SkipDecoderTpl.Skip#thrift.NewProtocolException", 18); ("thrift.skipType#thrift.NewProtocolException", 18);
+  (* the labels thrift.PrependError adds in the FastRead methods of base/k-base.go (the labels lbl_begin, lbl_field, lbl_skip of Model/FastCodec.v) *)
+  ("base.Base.FastRead#thrift.PrependError#1", 100); ("base.Base.FastRead#thrift.PrependError#2", 200);
+  ("base.Base.FastRead#thrift.PrependError#3", 300);
+  ("base.BaseResp.FastRead#thrift.PrependError#1", 100); ("base.BaseResp.FastRead#thrift.PrependError#2", 200);
+  ("base.BaseResp.FastRead#thrift.PrependError#3", 300);
+  (* used by the translator's differential self-test (tools/gotrans/testdata/sem) only *)
+  ("sem.inner#fmt.Errorf", 201); ("sem.ErrWrap#errors.New", 202); ("sem.ErrWrap#fmt.Errorf#1", 203);
+  ("sem.ErrWrap#fmt.Errorf#2", 204); ("sem.ErrNilDeref#errors.New", 205); ("sem.ErrNilDeref#fmt.Errorf", 206)
 ]%string.
 (* ECODE-TABLE-END *)
 Fixpoint ecode_find (l : list (string * Z)) (s : string) : Z :=
@@ -182,3 +198,64 @@ Lemma unerr_ok_inv {A} (r : res (A * gerror)) a : unerr r = Ok a -> r = Ok (a, g
 Proof.
   destruct r as [[x [e|]]| | |]; cbn; intros H; inversion H; reflexivity.
 Qed.
+
+(* =====================================================================================
+   Phase 2 of the translator: loops, recursion, pointers, maps, tables, abstract objects
+   ===================================================================================== *)
+
+(* A generated function never returns [Err] for a Go error (a Go error is a value of the result
+   tuple); [Err gfuel] is the one exception: a for statement ran out of its fuel, or the
+   recursion out of its recursion fuel.  The equivalence lemmas show that enough fuel exists. *)
+Definition gfuel : Z := 99.
+
+(* err.Error() (as an argument of an error constructor): a nil-interface method call panics *)
+Definition gerr_deref (e : gerror) : res unit := match e with None => Panic 5 | Some _ => Ok tt end.
+
+(* Go maps: [None] is the nil map; otherwise the entries in the order in which they were
+   assigned, newest first.  A lookup returns the first match (the value assigned last), the
+   zero value [d] when there is none or the map is nil.  A store into the nil map panics.
+   A map is a reference: the translator threads a map that a callee stores into like a []byte
+   parameter, and refuses every assignment that would make two variables refer to one map. *)
+Definition gmap (K V : Type) : Type := option (list (K * V)).
+Definition gmap_is_nil {K V} (m : gmap K V) : bool := match m with None => true | Some _ => false end.
+Definition gmap_set {K V} (m : gmap K V) (k : K) (v : V) : res (gmap K V) :=
+  match m with None => Panic 6 | Some l => Ok (Some ((k, v) :: l)) end.
+Fixpoint alist_get {K V} (eqb : K -> K -> bool) (l : list (K * V)) (k : K) : option V :=
+  match l with
+  | [] => None
+  | (k', v) :: r => if eqb k' k then Some v else alist_get eqb r k
+  end.
+Definition gmap_get {K V} (eqb : K -> K -> bool) (m : gmap K V) (k : K) (d : V) : V :=
+  match m with
+  | None => d
+  | Some l => match alist_get eqb l k with Some v => v | None => d end
+  end.
+
+(* make([]byte, n): n zero bytes; panics when n < 0 (allocation itself never fails: DESIGN §7) *)
+Definition gmake_bytes (n : Z) : res bytes :=
+  if n <? 0 then Panic 7 else Ok (repeat 0%N (Z.to_nat n)).
+
+(* t[i] for a package-level array of integers that is never written (its current contents are a
+   leading parameter gv_<name> : list Z of the generated function) *)
+Definition gtable (t : list Z) (i : Z) : res Z :=
+  if i <? 0 then Panic 2
+  else match nth_error t (Z.to_nat i) with Some x => Ok x | None => Panic 2 end.
+
+(* thrift.NewProtocolExceptionWithErr(err): panics on nil (err.Error()); otherwise the
+   ProtocolException that wraps err, identified by [gwrapped c] where c identifies err.  (An err
+   that is a *ProtocolException already would be returned as it is; the translator's users are the
+   readers over bufiox, whose errors are not.)  Model/StreamSkip.v e_wrap is the same function. *)
+Definition gwrapped (c : Z) : Z := 100 + c.
+Definition gpe_wrap (e : gerror) : res gerror :=
+  match e with None => Panic 5 | Some c => Ok (Some (gwrapped c)) end.
+
+(* a pointer receiver *T (T a struct with fields): [isnil] says whether the pointer is nil; p.f
+   panics then (reads: gptr_check; an assignment p.f = x: gptr_set) *)
+Definition gptr_check (isnil : bool) : res unit := if isnil then Panic 5 else Ok tt.
+Definition gptr_set {A} (isnil : bool) (x : A) : res A := if isnil then Panic 5 else Ok x.
+
+(* thrift.PrependError(text, err): panics on nil (err.Error()); otherwise a new error of the same
+   Thrift exception kind as err, identified by the label [k] of the call site plus the code of
+   err (Model/FastCodec.v relabel) *)
+Definition gerr_prepend (k : Z) (e : gerror) : res gerror :=
+  match e with None => Panic 5 | Some c => Ok (Some (k + c)) end.
